@@ -152,6 +152,12 @@ ApproxZipfDistribution<IntType>::UpdateCDF()
       const auto ith_prob = zipf_cdf_.at(j - 1) + base_prob / pow(j + 1, alpha_);
       zipf_cdf_.at(j) = ith_prob;
     }
+
+    // keep the CDF non-decreasing at the boundary between the exact and approximate parts
+    const auto upper = GetCDF(static_cast<IntType>(kExactBinNum));
+    for (auto &&cdf : zipf_cdf_) {
+      cdf = std::min(cdf, upper);
+    }
   }
 }
 
